@@ -153,7 +153,10 @@ def _shape(draw):
 @st.composite
 def wall_unit(draw, n):
     spec = draw(iso_spec(n, tmax=1.5))
-    spec["s"] = draw(gen.scalars_pm())
+    # the normal is given up to a non-zero factor: ordinary ones, and very small / large ones
+    # (a normal read off a tiny drawing, or one in other units)
+    spec["s"] = draw(st.one_of(gen.scalars_pm(), gen.scalars_pm(), gen.scalars_pm(),
+                               st.sampled_from([3e-5, -1e-5, 2e-6, 4e4, -3e5])))
     return spec
 
 
@@ -166,7 +169,8 @@ def walls_case(draw):
     return dict(n=n, shape=shape, units=units, ys=ys,
                 route=draw(st.sampled_from(["hyperplane", "hyperplane", "subspace", "raw",
                                             "moved"])),
-                src=draw(st.sampled_from(["library", "harness_col", "harness_row"])))
+                src=draw(st.sampled_from(["library", "harness_col", "harness_row",
+                                          "conjugated"])))
 
 
 def wall_normal(unit):
@@ -317,6 +321,17 @@ def build_reflection(case, vs):
     n, shape = case["n"], tuple(case["shape"])
     if case["src"] == "library":
         return build_wall(case)[0].reflection_across()
+    if case["src"] == "conjugated":
+        # g R0 g^-1 for the reflection R0 across the standard wall and an isometry g whose
+        # matrix is given up to a scalar, composed and inverted by the library
+        e1 = np.zeros((1, n + 1))
+        e1[0, 1] = 1.0
+        R0 = hyperbolic.Hyperplane(np.tile(e1, shape + (1, 1))).reflection_across()
+        Cs = [wall_normal(u)[1] for u in case["units"]]
+        k = np.array([abs(u["s"]) if 0.05 < abs(u["s"]) < 20 else 3.0 for u in case["units"]])
+        g = Isometry((k[:, None, None] * np.array([C.T for C in Cs])).reshape(
+            shape + (n + 1, n + 1)))
+        return g @ R0 @ g.inv()
     cols = np.array([refl_col(v) for v in vs]).reshape(shape + (n + 1, n + 1))
     if case["src"] == "harness_col":
         return Isometry(cols.copy(), column_vectors=True)
